@@ -236,8 +236,7 @@ theorem eta_active {s : State} {seg : Active} (h : s.active = some seg) : { s wi
   cases s; simp_all
 
 theorem cur_bounds (seg : Active) (hb : seg.base ≤ u32Max) : seg.base ≤ seg.cur ∧ seg.cur ≤ seg.base + seg.buf.length := by
-  unfold Active.cur
-  have := Nat.mod_le seg.buf.length 4294967296
+  unfold Active.cur u32Max at *
   omega
 
 /-- every operation except a rewrite: no panic, invariant kept, nothing already emitted changes -/
